@@ -124,7 +124,9 @@ func c18Types(s *verifutil.Schema) []*verifutil.CodecType {
 	ts = append(ts, &verifutil.CodecType{
 		Name: "EmptyBlockHeader",
 		New:  func() interface{} { return new(EmptyBlockHeader) },
-		Enc:  func(x interface{}) ([]byte, error) { return (&Header{EmptyBlockHeader: x.(*EmptyBlockHeader)}).ToBytes() },
+		Enc: func(x interface{}) ([]byte, error) {
+			return (&Header{EmptyBlockHeader: x.(*EmptyBlockHeader)}).ToBytes()
+		},
 		Dec: func(b []byte) (interface{}, error) {
 			h := new(Header)
 			if err := h.FromBytes(b); err != nil {
@@ -388,6 +390,75 @@ func c18CertCompress(rep *verifutil.Report, n int) {
 	}
 }
 
+// c18HeaderBinding: the block hash is what votes and certificates sign. For every header the
+// type's own gate (IsValid) lets in, whatever a node reads from it through the accessors (height,
+// parent, time, roots, seed, flags, ...) must be bound by that hash: a change of any stored field
+// that changes an accessor's answer must change the hash.
+func c18HeaderBinding(rep *verifutil.Report, s *verifutil.Schema, n int) {
+	view := func(h *Header) []string {
+		return []string{"Height=" + fmt.Sprint(h.Height()), "ParentHash=" + h.ParentHash().Hex(), "Time=" + fmt.Sprint(h.Time()), "Root=" + h.Root().Hex(), "IdentityRoot=" + h.IdentityRoot().Hex(),
+			"Seed=" + verifutil.Hex(h.Seed().Bytes()), "Flags=" + fmt.Sprint(h.Flags()), "Coinbase=" + h.Coinbase().Hex(), "IpfsHash=" + verifutil.Hex(h.IpfsHash())}
+	}
+	names := []string{"Height", "ParentHash", "Time", "Root", "IdentityRoot", "Seed", "Flags", "Coinbase", "IpfsHash"}
+	for i := 0; i < n; i++ {
+		r := verifutil.Stream(18, 901, uint64(i))
+		h := new(Header)
+		s.Fill(h, r, verifutil.FillFull)
+		shape := "proposed"
+		switch r.Intn(4) {
+		case 0:
+			h.ProposedHeader, shape = nil, "empty"
+		case 1, 2:
+			h.EmptyBlockHeader = nil
+		default:
+			shape = "both-parts"
+		}
+		if h.ProposedHeader != nil && len(h.ProposedHeader.ProposerPubKey) != 65 {
+			k := c18key(r)
+			h.ProposedHeader.ProposerPubKey = crypto.FromECDSAPub(&k.PublicKey)
+		}
+		rep.Count("header_binding_shape:"+shape, 1)
+		if !h.IsValid() {
+			rep.Count("header_binding_refused_by_IsValid:"+shape, 1)
+			continue
+		}
+		var v0 []string
+		var h0 common.Hash
+		if p, _ := verifutil.Catch(func() { v0, h0 = view(s.Clone(h).(*Header)), s.Clone(h).(*Header).Hash() }); p != nil {
+			continue
+		}
+		base := s.Leaves(s.Clone(h))
+		for li := range base {
+			for k := 0; k < base[li].NMut; k++ {
+				c := s.Clone(h).(*Header)
+				ls := s.Leaves(c)
+				if li >= len(ls) || ls[li].Path != base[li].Path {
+					break
+				}
+				ls[li].Mutate(k, r.Fork(uint64(li*8+k)))
+				if !c.IsValid() {
+					rep.Count("header_binding_mutants_refused_by_IsValid", 1)
+					continue // the variant does not get past the gate: nothing reads it
+				}
+				var v1 []string
+				var h1 common.Hash
+				if p, _ := verifutil.Catch(func() { v1, h1 = view(s.Clone(c).(*Header)), s.Clone(c).(*Header).Hash() }); p != nil {
+					continue
+				}
+				rep.Eval(1)
+				rep.Count("header_binding_mutations", 1)
+				for a := range v0 {
+					if v0[a] != v1[a] && h0 == h1 {
+						rep.Violation("O5:Header.hash-does-not-bind:"+names[a], fmt.Sprintf("a header (%s) that passes IsValid: changing only %s turns %s into %s while Hash() stays %s - votes and certificates over this hash do not commit to what the node reads",
+							shape, base[li].Path, v0[a], v1[a], h0.Hex()), map[string]interface{}{"shape": shape, "field": base[li].Path})
+						break
+					}
+				}
+			}
+		}
+	}
+}
+
 func TestVerifC18Codec(t *testing.T) {
 	if !verifutil.Enabled() {
 		t.Skip("verif harness")
@@ -401,4 +472,5 @@ func TestVerifC18Codec(t *testing.T) {
 	}
 	cr.Run(verifutil.Scale(600, 48000)/verifutil.NShards(), verifutil.Scale(30, 600)/verifutil.NShards())
 	c18CertCompress(rep, verifutil.Scale(200, 6000)/verifutil.NShards())
+	c18HeaderBinding(rep, s, verifutil.Scale(400, 8000)/verifutil.NShards())
 }
